@@ -296,7 +296,7 @@ func checkC20(p *core.Program, r *core.Report) {
 		}
 	}
 	collect(saveResult, paramIndex(saveResult, "name"), paramIndex(saveResult, "category"), nil, 0)
-	if !r.Require("action_save_sites", len(saves), 10) {
+	if !r.Require("action_save_sites", len(saves), 5) {
 		return
 	}
 	rcIface := p.Interface("flows/inspect", "ResultContainer")
@@ -996,7 +996,7 @@ func c20R5(p *core.Program, r *core.Report, isAction map[*types.Named]bool) {
 		nEval++
 		trace(cs.Common().Args[0], cs.Caller, 0, core.FuncName(cs.Caller), cs.Pos())
 	}
-	r.Require("action_evaluate_sites", nEval, 15)
+	r.Require("action_evaluate_sites", nEval, 8)
 	var keys []*types.Var
 	for k := range found {
 		keys = append(keys, k)
@@ -1350,7 +1350,7 @@ func c20R8(p *core.Program, r *core.Report) {
 				"the extraction stage "+st.name+" hands over to "+what+" conditionally: "+bad+" — templates or references that a run uses are then missing from the inspection's dependencies")
 		}
 	}
-	r.Require("extraction_handovers", n, 8)
+	r.Require("extraction_handovers", n, 4)
 }
 
 // ---------------------------------------------------------------------------------------------- R10
@@ -1418,7 +1418,7 @@ func c20R10(p *core.Program, r *core.Report) {
 	}
 	r.Check(!(validateLowered && exactConsumer != ""), "R10", "SwitchRouter.Validate/type-spelling-not-laxer-than-consumers", p.Pos(validate.Pos()), fmt.Sprintf("%d decisions on Case.Type, Validate exact", len(uses)),
 		"SwitchRouter.Validate accepts a case type after lower-casing it, but "+exactConsumer+" compares the type exactly: a case spelled HAS_GROUP loads and routes by group membership while its group is missing from the inspected dependencies")
-	r.Require("case_type_decisions", len(uses), 3)
+	r.Require("case_type_decisions", len(uses), 2)
 	r.Require("case_type_decisions_in_validate", nV, 1)
 }
 
